@@ -270,6 +270,27 @@ def run (ctx : Ctx) (op : Operation) (node : Node) : Nat → St → List Out
 def expand (ctx : Ctx) (op : Operation) (node : Node) (paths : List Path) (fuel : Nat) : List Out :=
   run ctx op node fuel { items := paths }
 
+/-! ## termination measure of the expander (used by the driver as the number of `next` calls)
+
+The three cursors `(endpoint position, cluster_index, leaf_index)` decrease lexicographically with
+every yield; `mE` is that lexicographic order flattened into one number (remaining endpoints, each
+weighted by its remaining clusters, each weighted by its remaining leaves). `Props/C06` proves that
+`fuelBound` calls of `next` always suffice on a node whose endpoints are sorted by id. -/
+
+/-- remaining weight of a cluster list from leaf index `li` inside its first cluster -/
+def mC (op : Operation) : List Cluster → Nat → Nat
+  | [], _ => 0
+  | c :: rest, li => 1 + ((c.leaves (op == .invoke)).length - li) + mC op rest 0
+
+/-- remaining weight of an endpoint list from the cursor `(ci, li)` inside its first endpoint -/
+def mE (op : Operation) : List Endpoint → Nat → Nat → Nat
+  | [], _, _ => 0
+  | e :: rest, ci, li => 1 + mC op (e.clusters.drop ci) li + mE op rest 0 0
+
+/-- number of `next` calls after which the expansion of `paths` has certainly ended -/
+def fuelBound (op : Operation) (node : Node) (paths : List Path) : Nat :=
+  paths.length * (mE op node 0 0 + 2) + 1
+
 /-! ## `im.rs`: the timed window in front of a write / invoke -/
 
 inductive TimedGate | proceed | timedRequestMismatch | timeout
